@@ -10,6 +10,11 @@ CLAIMS = {
   note="Trusted: Lean kernel; axioms propext, Quot.sound, Classical.choice; goatx (type tags, CAST list); float64 arithmetic and float<->int conversion are Go's/the CPU's (modelled with Lean Float only for the executable correspondence; nothing is proved about IEEE-754); A-f64-int: integers below 2^53 are exact in the float64 carrier; which instruction the compiler picks for each syntactic position is covered by search here and by C02's rule soundness, not by a C04 theorem; untyped constant folding beyond 2^53 and float literals next to integer operands (finding N8) are outside the theorems.",
   technique="Lean 4 proof over BitVec (arm selection by regenerated tag table, all operand values symbolic) + exhaustive 8-bit model/implementation correspondence + native Go oracle",
   ref="7/C04"),
+ "C10": dict(
+  text="Machine-checked (Lean 4 kernel) for every key type, value type and operation history: the model of stringMap/numericMap (Go map + ordered key list with stale entries, lazy compaction to ANY order maps.Keys may return) refines a finite map (get_set, get_delete, len_set, len_delete, len_counts), keeps its invariant in every reachable state incl. literals with coinciding keys (inv_history, inv_ofList), and a range loop interleaved arbitrarily with inserts and deletes visits only live keys with their current values, never a key twice (so a deleted-and-reinserted or newly inserted key at most once), and on exhaustion every key live for the whole loop (visit_is_live, visits_nodup, visits_complete, range_contract). The model is tied to the real map objects by a line-by-line correspondence over generated histories that also compares the internal key list after every mutation; a native Go map and the Go range contract are the search oracle, through the host API and through generated scripts.",
+  note="Trusted: Lean kernel; axioms propext, Quot.sound (Classical.choice where core lemmas use it); the Go built-in map behind `data` and maps.Keys (modelled as an arbitrary permutation, supplied by the implementation as a witness and checked to be a permutation); element conversion on store (assign) is C04's; NaN keys are excluded by the property; the nil-map front end (Value.Get/Len/Range/Delete on a nil map) is exercised by the script sweep only.",
+  technique="Lean 4 proof (invariant + refinement to finite map + trace semantics of range under mutation, for every compaction order) + model/implementation correspondence incl. internal key list + native Go map oracle",
+  ref="7/C10"),
  "C05": dict(
   text="Machine-checked (Lean 4 kernel) for every expression of any size and nesting: goatlang's Pratt parser, with the binding-power table regenerated from symbol.go on this run, reads the text that Go's five-level grammar prints for a tree (with any redundant parentheses) back as exactly that tree (theorems groups_as_go, groups_as_go_ctx; table facts table_ops/table_ok/table_iso/table_order by kernel evaluation on the regenerated table; &^ by andnot_equiv). The hand-written parser model is tied to the real parser by an exhaustive + random tree-for-tree correspondence, and go/parser plus native Go evaluation search for a failing input.",
   note="Trusted: Lean kernel; axioms propext, Quot.sound, Classical.choice only; goatx table extractor; the parser model covers names, integer literals, the 18 binary and 3 prefix operators and parentheses (calls, indexing, selectors, composite literals are not in the model; they bind tighter than every operator and are exercised only by the correspondence run through the real parser); text/scanner tokenisation is trusted; values are checked by search (native Go int32/bool evaluation), not proved here (C04 carries the arithmetic).",
